@@ -278,7 +278,7 @@ func wsProbeLateNextAfterUnsubscribe() string {
 			return v, ok, ""
 		case e := <-errChan:
 			return "", false, fmt.Sprintf("next-not-delivered waiting for %s the client reported: %v", what, e)
-		case <-time.After(2 * time.Second):
+		case <-time.After(6 * time.Second):
 			return "", false, "next-not-delivered " + what + " never arrived"
 		}
 	}
@@ -353,7 +353,7 @@ func wsProbeSecondStart(ackFails bool) func() string {
 		close(c1.fail) // the connection drops
 		select {
 		case <-errCh:
-		case <-time.After(2 * time.Second):
+		case <-time.After(6 * time.Second):
 			return "" // no report: another finding's business
 		}
 		type res struct{ err error }
@@ -374,7 +374,7 @@ func wsProbeSecondStart(ackFails bool) func() string {
 				if r.err != nil {
 					return "start-retry-failed a second Start after a dropped connection fails although dial, init and ack succeed: " + r.err.Error()
 				}
-			case <-time.After(2 * time.Second):
+			case <-time.After(6 * time.Second):
 				return "start-hangs the second Start did not return after its connection_ack"
 			}
 			cl.Close()
@@ -386,7 +386,7 @@ func wsProbeSecondStart(ackFails bool) func() string {
 			if r.err == nil {
 				return "start-fault-unreported the second Start returned success although reading its connection_ack failed"
 			}
-		case <-time.After(2 * time.Second):
+		case <-time.After(6 * time.Second):
 			return "start-hangs the second Start did not return after a read fault in its ack wait"
 		}
 		c2.mu.Lock()
@@ -425,7 +425,7 @@ func wsProbeMessageType(mtype int) func() string {
 			}
 		case e := <-errCh:
 			return fmt.Sprintf("next-not-delivered with a connection that reports message type %d the client reported: %v", mtype-1, e)
-		case <-time.After(2 * time.Second):
+		case <-time.After(6 * time.Second):
 			return fmt.Sprintf("next-not-delivered with a connection that reports message type %d for its frames, a next never reached its channel", mtype-1)
 		}
 		conn.in <- []byte(fmt.Sprintf(`{"type":"complete","id":%q}`, id))
@@ -434,7 +434,7 @@ func wsProbeMessageType(mtype int) func() string {
 			if ok {
 				return "delivery-after-end a value arrived after complete"
 			}
-		case <-time.After(2 * time.Second):
+		case <-time.After(6 * time.Second):
 			return fmt.Sprintf("channel-not-closed-after-end with message type %d the channel was not closed after complete", mtype-1)
 		}
 		cl.Close()
@@ -495,7 +495,7 @@ func wsProbeSharedOptionValue() string {
 		select {
 		case f := <-connA.inits:
 			return f
-		case <-time.After(time.Second):
+		case <-time.After(6 * time.Second):
 			return "no connection_init"
 		}
 	}
